@@ -194,5 +194,4 @@ void register_c03(std::vector<Profile>& v)
   v.push_back(p);
 }
 
-void register_delivery_profiles(std::vector<Profile>&) {}
 } // namespace vs
